@@ -12,8 +12,12 @@ use std::panic::{catch_unwind, AssertUnwindSafe};
 pub fn run_stream(ctx: &mut Ctx, name: &str) {
 	match name {
 		"compact" => compact_stream(ctx),
-		"enc" | "rt" | "mut" | "rand" | "exh" | "cut" | "decall" | "skip" | "count" | "limit" | "mem" | "stacks" | "mel" | "sinks" =>
+		"enc" | "rt" | "mut" | "rand" | "exh" | "cut" | "decall" | "skip" | "count" | "limit" | "mem" | "stacks" | "mel" =>
 			catalogue::run_all(ctx, name),
+		"sinks" => {
+			catalogue::run_all(ctx, name);
+			skipped_variant_sinks(ctx);
+		},
 		"alloc" => {
 			catalogue::run_all(ctx, name);
 			alloc_big_elems(ctx);
@@ -463,6 +467,26 @@ fn dec_for_pool<T: Cat>(bs: &[u8]) -> (String, Option<usize>) {
 	(ans, dv.map(|(_, rem)| rem))
 }
 
+fn dec_for_pool_io<T: Cat>(bs: &[u8]) -> (String, Option<usize>) {
+	#[cfg(feature = "codec-std")]
+	{
+		let r = catch_unwind(AssertUnwindSafe(|| {
+			let mut io = parity_scale_codec::IoReader(InterruptedRd { data: bs, pos: 0, calls: 0 });
+			let r = T::decode(&mut io);
+			(r, bs.len() - io.0.pos)
+		}));
+		match r {
+			Ok((Ok(v), rem)) => (format!("ok {} {}", val_string(&v, true), rem), Some(rem)),
+			Ok((Err(_), _)) => ("err".into(), None),
+			Err(_) => ("panic".into(), None),
+		}
+	}
+	#[cfg(not(feature = "codec-std"))]
+	{
+		dec_for_pool::<T>(bs)
+	}
+}
+
 fn concat_stream(ctx: &mut Ctx) {
 	let pool = std::mem::take(&mut ctx.pool);
 	let mut rng = Rng::new(ctx.seed ^ 0xC0CA7);
@@ -488,6 +512,13 @@ fn concat_stream(ctx: &mut Ctx) {
 			let expect = format!("ok {} {}", e.val, rest.len() - e.bytes.len());
 			if ans != expect {
 				ctx.oracle_fail("C14", format!("concatenation: {} at offset {} of {}: got {} expected {}", e.name, off, hex(&all), &ans[..ans.len().min(80)], &expect[..expect.len().min(80)]));
+			}
+			// ... also when the bytes arrive through a reader that is interrupted between deliveries
+			let (ans_io, _) = (e.dec_io)(rest);
+			if ans_io != expect {
+				let msg = format!("concatenation through an interrupted IoReader: {} at offset {}: got {} expected {}", e.name, off, &ans_io[..ans_io.len().min(80)], &expect[..expect.len().min(80)]);
+				ctx.oracle_fail("C14", msg.clone());
+				ctx.oracle_fail("C08", msg);
 			}
 			match rem {
 				Some(r) => off = all.len() - r,
@@ -652,7 +683,7 @@ pub fn run_type<T: Cat + DecodeAll + DecodeLimit>(ctx: &mut Ctx, stream: &str, n
 			for _ in 0..3 {
 				g.budget = o.budget.min(8);
 				let v = T::gen(&mut g);
-				ctx.pool.push(crate::PoolEntry { name, ty: T::ty, bytes: v.encode(), val: val_string(&v, true), dec: dec_for_pool::<T> });
+				ctx.pool.push(crate::PoolEntry { name, ty: T::ty, bytes: v.encode(), val: val_string(&v, true), dec: dec_for_pool::<T>, dec_io: dec_for_pool_io::<T> });
 			}
 		},
 		"cut" => {
@@ -1295,6 +1326,9 @@ fn big_stream(ctx: &mut Ctx) {
 	big_for::<(u8, u16), Vec<(u8, u16)>>(ctx, "Vec<(u8,u16)>");
 	big_for::<Option<u32>, Vec<Option<u32>>>(ctx, "Vec<Option<u32>>");
 	big_for::<(), Vec<()>>(ctx, "Vec<()>");
+	// zero-sized in memory, one byte on the wire: every one of 50 000 elements is read and checked
+	big_for::<crate::derived::Marker, Vec<crate::derived::Marker>>(ctx, "Vec<Marker>");
+	big_for::<crate::derived::Marker, VecDeque<crate::derived::Marker>>(ctx, "VecDeque<Marker>");
 	// element sizes that do not divide the 16 KiB chunk (3, 24 and 12 bytes in memory)
 	big_for::<[u8; 3], Vec<[u8; 3]>>(ctx, "Vec<[u8;3]>");
 	big_for::<String, Vec<String>>(ctx, "Vec<String>");
@@ -1359,6 +1393,7 @@ fn big_stream(ctx: &mut Ctx) {
 					(a, b, c, d)
 				}));
 				if !matches!(r, Ok((false, false, false, true))) {
+					ctx.oracle_fail("C03", format!("BitVec<{}>::skip accepts a bit sequence longer than 2^29 - 1 bits (or rejects one of 2^29 - 1): {:?}", $label, r.as_ref().ok()));
 					ctx.oracle_fail("C18", format!("BitVec<{}>::skip at the bit-length cap (2^29 bits over a slice, over an unknown-length input, BitBox; 2^29 - 1 bits) gives {:?} where decode gives (rejected, rejected, rejected, accepted)", $label, r.ok()));
 				}
 				ctx.count("big:bit-cap-cases", 2);
@@ -1366,6 +1401,73 @@ fn big_stream(ctx: &mut Ctx) {
 		}
 		cap_case!(u8, Lsb0, "u8,Lsb0");
 		cap_case!(u64, Msb0, "u64,Msb0");
+	}
+	// a tampered element deep in the tail of a long vector of zero-sized-in-memory elements is noticed
+	{
+		use crate::derived::Marker;
+		let n = 40_000usize;
+		let mut bs = Compact(n as u32).encode();
+		let idx = Marker::Only.encode()[0];
+		bs.extend(std::iter::repeat(idx).take(n));
+		let good = dec_answer::<Vec<Marker>>(&bs).1.map(|(v, rem)| (v.len(), rem));
+		let mut bad = bs.clone();
+		let k = bad.len() - 7;
+		bad[k] = idx.wrapping_add(1);
+		let bad_r = dec_answer::<Vec<Marker>>(&bad).1.is_some();
+		let short = dec_answer::<Vec<Marker>>(&bs[..bs.len() - 1]).1.is_some();
+		if good != Some((n, 0)) || bad_r || short {
+			let msg = format!("Vec<Marker> of {} one-byte elements: complete {:?} (expected {} elements, 0 bytes left), with a wrong byte near the end accepted = {}, one byte short accepted = {}", n, good, n, bad_r, short);
+			ctx.oracle_fail("C03", msg.clone());
+			ctx.oracle_fail("C14", msg);
+		}
+	}
+	// primitive runs longer than a MiB (and not a multiple of it): the bulk path against the
+	// element-by-element encoding of the same numbers
+	{
+		use crate::derived::Twin;
+		let mut r = Rng::new(ctx.seed ^ 0x1A1B);
+		let a: Vec<u32> = (0..300_001).map(|_| r.next() as u32).collect();
+		let b: Vec<u8> = (0..(1usize << 20) + 5).map(|_| r.next() as u8).collect();
+		let c: Vec<u64> = (0..(1usize << 17) + 3).map(|_| r.next()).collect();
+		macro_rules! long_run {
+			($v:expr, $t:ty, $label:expr) => {{
+				let v = &$v;
+				let e = v.encode();
+				let tw: Vec<Twin<$t>> = v.iter().cloned().map(Twin).collect();
+				let et = tw.encode();
+				let dq: std::collections::VecDeque<$t> = v.iter().cloned().collect();
+				let back = <Vec<$t>>::decode(&mut &e[..]).ok();
+				if e != et || dq.encode() != et || v.encoded_size() != et.len() || (&v[..]).encode() != et || back.as_ref() != Some(v) {
+					let msg = format!("{} of {} elements ({} bytes): bulk encoding {} bytes, element-wise {} bytes, equal = {}, round trip ok = {}", $label, v.len(), v.len() * core::mem::size_of::<$t>(), e.len(), et.len(), e == et, back.as_ref() == Some(v));
+					ctx.oracle_fail("C07", msg.clone());
+					ctx.oracle_fail("C01", msg.clone());
+					ctx.oracle_fail("C02", msg);
+				}
+			}};
+		}
+		long_run!(a, u32, "Vec<u32>");
+		long_run!(b, u8, "Vec<u8>");
+		long_run!(c, u64, "Vec<u64>");
+		ctx.count("big:runs-over-a-MiB", 3);
+	}
+	// shared holders of payloads above 16 KiB under a memory limit: the payload is what is charged
+	{
+		use std::rc::Rc;
+		use std::sync::Arc;
+		let bs = vec![1u8; 40000];
+		let r = catch_unwind(AssertUnwindSafe(|| {
+			use parity_scale_codec::DecodeWithMemLimit;
+			let a = <Rc<[u8; 20000]>>::decode_with_mem_limit(&mut &bs[..], 9).is_ok();
+			let b = <Arc<[u32; 5000]>>::decode_with_mem_limit(&mut &bs[..], 20000).is_ok();
+			let c = <Rc<[u8; 20000]>>::decode_with_mem_limit(&mut &bs[..], 20001).is_ok();
+			let mut s = &bs[..];
+			let mut m = MemTrackingInput::new(&mut s, 1 << 30);
+			let _ = <(Rc<[u8; 17000]>, Arc<[u16; 9000]>)>::decode(&mut m);
+			(a, b, c, m.used_mem())
+		}));
+		if !matches!(r, Ok((false, false, true, 35000))) {
+			ctx.oracle_fail("C12", format!("Rc/Arc of arrays above 16 KiB under memory limits 9 / 20000 / 20001 and their tracked usage: {:?}, expected (false, false, true, 35000)", r.ok()));
+		}
 	}
 	// a count in the five-byte mode (2^30 elements; 2^32 - 1 in the thorough tier): only zero-sized
 	// elements make that affordable
@@ -2483,6 +2585,43 @@ pub fn sinks_case<T: Encode + ?Sized>(ctx: &mut Ctx, name: &str, v: &T, req: &st
 	}
 }
 
+/// Values in `#[codec(skip)]` variants encode to nothing through every entry point - alone and as a
+/// field of a derived struct, a tuple, a vector.
+pub fn skipped_variant_sinks(ctx: &mut Ctx) {
+	use crate::derived::{HoldsSkippable, Mixed, TrailingCommaE};
+	macro_rules! all_agree { ($v:expr, $label:expr) => {{
+		let v = &$v;
+		let r = catch_unwind(AssertUnwindSafe(|| {
+			let a = v.encode();
+			let mut b = Vec::new();
+			v.encode_to(&mut b);
+			(a, b, v.using_encoded(|s| s.to_vec()), v.encoded_size(), v.size_hint())
+		}));
+		match r {
+			Ok((a, b, u, n, _)) if a == b && a == u && a.len() == n => Some(a),
+			other => {
+				ctx.oracle_fail("C07", format!("{}: entry points disagree on a value holding a skipped variant: {:?}", $label, other.ok().map(|(a, b, u, n, _)| (a.len(), b.len(), u.len(), n))));
+				None
+			},
+		}
+	}}; }
+	let e0 = all_agree!(Mixed::Hidden(3), "Mixed::Hidden");
+	if e0.as_deref() != Some(&[][..]) {
+		ctx.oracle_fail("C05", format!("Mixed::Hidden (a skipped variant) encodes to {:?}", e0));
+	}
+	let _ = all_agree!(TrailingCommaE::B, "TrailingCommaE::B");
+	let h = all_agree!(HoldsSkippable { a: 1, e: Mixed::Hidden(9), b: 0x0302 }, "HoldsSkippable { e: Mixed::Hidden }");
+	if h.as_deref() != Some(&[1u8, 2, 3][..]) {
+		ctx.oracle_fail("C05", format!("a derived struct holding a skipped variant between 01 and 0203 encodes to {:?}", h));
+	}
+	let _ = all_agree!(HoldsSkippable { a: 1, e: Mixed::B(7), b: 5 }, "HoldsSkippable { e: Mixed::B }");
+	let _ = all_agree!((Mixed::Hidden(1), 7u8, TrailingCommaE::B), "(Mixed::Hidden, 7, TrailingCommaE::B)");
+	let _ = all_agree!(vec![Mixed::A, Mixed::Hidden(2), Mixed::D], "vec![A, Hidden, D]");
+	let _ = all_agree!(Some(Mixed::Hidden(2)), "Some(Mixed::Hidden)");
+	let _ = all_agree!(Box::new(HoldsSkippable { a: 9, e: Mixed::Hidden(0), b: 1 }), "Box<HoldsSkippable>");
+	ctx.count("sinks:skipped-variant-values", 8);
+}
+
 fn bulk_lengths<T>(thorough: bool) -> Vec<usize> {
 	let sz = core::mem::size_of::<T>().max(1);
 	let c = 16384 / sz;
@@ -2884,6 +3023,30 @@ impl std::io::Read for InterruptedRd<'_> {
 	}
 }
 
+/// An input whose `remaining_len` fails (mode 0) or over-reports (1: `usize::MAX / 2`, 2: 1 MiB too much).
+struct LyingLenInput<'a> {
+	data: &'a [u8],
+	pos: usize,
+	mode: u8,
+}
+impl Input for LyingLenInput<'_> {
+	fn remaining_len(&mut self) -> Result<Option<usize>, parity_scale_codec::Error> {
+		match self.mode {
+			0 => Err("length unknown right now".into()),
+			1 => Ok(Some(usize::MAX / 2)),
+			_ => Ok(Some(self.data.len() - self.pos + (1 << 20))),
+		}
+	}
+	fn read(&mut self, into: &mut [u8]) -> Result<(), parity_scale_codec::Error> {
+		if into.len() > self.data.len() - self.pos {
+			return Err("eof".into());
+		}
+		into.copy_from_slice(&self.data[self.pos..self.pos + into.len()]);
+		self.pos += into.len();
+		Ok(())
+	}
+}
+
 struct UnknownLenInput<'a> {
 	data: &'a [u8],
 	pos: usize,
@@ -3016,6 +3179,21 @@ fn alloc_case<T: Cat>(ctx: &mut Ctx, name: &str, bs: &[u8], depth_allowance: usi
 			});
 			if ms.max_request > bound_req || ms.peak_live > bound_peak {
 				ctx.oracle_fail("C09", format!("{} [skip, {}]: largest request {} bytes, peak {} live bytes while stepping over {} input bytes (bounds {} / {}): {}", name, if input_kind == 0 { "slice" } else { "unknown-length input" }, ms.max_request, ms.peak_live, bs.len(), bound_req, bound_peak, &hex_or_dash(bs)[..hex_or_dash(bs).len().min(60)]));
+			}
+		}
+		// inputs whose `remaining_len` cannot be relied on: it fails, or it reports far more than `read`
+		// will deliver (an announced frame length, a truncated source) - the bound holds all the same
+		if input_kind == 0 {
+			for lying in [0u8, 1, 2] {
+				let (_r, ml) = crate::alloc::measure(|| {
+					catch_unwind(AssertUnwindSafe(|| {
+						let mut u = LyingLenInput { data: bs, pos: 0, mode: lying };
+						T::decode(&mut u).is_ok()
+					}))
+				});
+				if ml.max_request > bound_req || ml.peak_live > bound_peak {
+					ctx.oracle_fail("C09", format!("{} [input whose remaining_len {}]: largest request {} bytes, peak {} live bytes while decoding {} input bytes (bounds {} / {}): {}", name, ["fails", "reports usize::MAX / 2", "reports 1 MiB more than it holds"][lying as usize], ml.max_request, ml.peak_live, bs.len(), bound_req, bound_peak, &hex_or_dash(bs)[..hex_or_dash(bs).len().min(60)]));
+				}
 			}
 		}
 		let kind = ["slice", "unknown-length input", "io reader", "shared buffer", "zero-sized input type", "memory-tracking input (1 GiB limit) over a slice", "counting over memory-tracking (1 GiB) over an unknown-length input"][input_kind];
